@@ -235,6 +235,25 @@ let () =
           let want = (match sqlite_schema_diff no_skip from to_ with None -> None | Some cs -> Some (remove_kinds ks cs)) in
           if show_changes got <> show_changes want then Printf.printf "%s MODEL-REFERENCE-DIFFERS %s\n" id (show_changes want);
           Printf.printf "%s %s\n" id (show_changes got)
+        | "skipopts" ->
+          (* a sequence of diffs sharing option values: <ncalls> { <nopts> { N | S <nk> <kind>... } } <from> <to> *)
+          let nc = next_int () in
+          let calls = times nc (fun () ->
+            let no = next_int () in
+            times no (fun () ->
+              match next () with
+              | "N" -> ONormalized
+              | "S" -> let nk = next_int () in OSkip (times nk (fun () -> kind_of_name (next ())))
+              | s -> failwith ("option " ^ s))) in
+          let from = parse_schema () in
+          let to_ = parse_schema () in
+          let got = sqlite_diff_sequence calls from to_ in
+          (* theorem C19_skip_options_reusable (1), re-checked on the extracted code *)
+          let base = sqlite_schema_diff no_skip from to_ in
+          let want = Stdlib.List.map (fun ds -> match base with None -> None | Some cs -> Some (remove_kinds (kinds_of ds) cs)) calls in
+          let show l = String.concat " || " (Stdlib.List.map show_changes l) in
+          if show got <> show want then Printf.printf "%s MODEL-REFERENCE-DIFFERS %s\n" id (show want);
+          Printf.printf "%s %s\n" id (show got)
         | m -> failwith ("mode " ^ m)
       end
     done
